@@ -11,8 +11,8 @@
    "fs"     dot_bracket_from_structure(strand, sc, maxo) with base_pairs() replaced by the recorded
             atom pairs ap; resOf = residue position of every atom; obs = <<outcome, notations>>
 
-   Up to DeclMax base pairs the expected rows are the declarative ones (and the code-shaped
-   definition is compared with them: flag implDecl); beyond, the code-shaped definition, which S1
+   Up to DeclMax base pairs (and for pairs that all cross each other) the expected rows are the
+   declarative ones (up to DeclMax the code-shaped definition is compared with them: last flag); beyond, the code-shaped definition, which S1
    shows to be the same on every bounded input, gives them, and every observed row must obey the
    documented laws (Law_Levels).
    PrintT(<<"MISMATCH", tid, l, flags, expected>>) for disagreements, PrintT(<<"DIAG", tid, l, what>>)
@@ -31,7 +31,9 @@ Diag(cond, what) == IF cond THEN PrintT(<<"DIAG", tid, l + 1, what>>) ELSE TRUE
 Dom_Call(bp, sc, maxo) == Dom_Pairs(bp) /\ Dom_MaxOrder(maxo)
                           /\ (Dom_Scores(sc, Len(bp)) \/ (~IsNone(sc) /\ Len(Val(sc)) # Len(bp)))
 Small(bp) == Len(bp) <= DeclMax
-Expected(bp, sc, maxo) == IF Small(bp) THEN Pseudoknots(bp, sc, maxo) ELSE PseudoknotsImpl(bp, sc, maxo)
+\* (when every two pairs cross, the knot-free subsets are the single pairs: declarative at any size)
+Ladder(bp) == \A i, j \in DOMAIN bp : i # j => Crosses(bp[i], bp[j])
+Expected(bp, sc, maxo) == IF Small(bp) \/ Ladder(bp) THEN Pseudoknots(bp, sc, maxo) ELSE PseudoknotsImpl(bp, sc, maxo)
 ImplDeclOK(bp, sc, maxo, exp) == (Small(bp) /\ exp.oc = "ok") => PseudoknotsImpl(bp, sc, maxo) = exp
 
 JudgePk(e) ==
